@@ -36,7 +36,7 @@ type Case struct {
 	Workers  int              `json:"workers,omitempty"`
 	Delay    int              `json:"delay,omitempty"`
 	Impl     string           `json:"impl,omitempty"` // repository / report implementation
-	Doc      []byte           `json:"doc,omitempty"` // document bytes (base64 in the replay file)
+	Doc      []byte           `json:"doc,omitempty"`  // document bytes (base64 in the replay file)
 	Frag     []int            `json:"frag,omitempty"`
 	Assets   []AssetSpec      `json:"assets,omitempty"`
 	Names    []string         `json:"names,omitempty"`
@@ -64,13 +64,13 @@ type CallSpec struct {
 
 // OpSpec is one operation of a repository or file history.
 type OpSpec struct {
-	Op    string  `json:"op"`
-	Name  string  `json:"name,omitempty"`
-	N     int     `json:"n,omitempty"`     // number of rows / snapshots
-	From  int     `json:"from,omitempty"`  // day offset of the first appended snapshot, or of the bound
-	Half  bool    `json:"half,omitempty"`  // bound falls between two days (half a day later)
-	Seed  int64   `json:"seed,omitempty"`  // value seed
-	Vals  []int64 `json:"vals,omitempty"`
+	Op   string  `json:"op"`
+	Name string  `json:"name,omitempty"`
+	N    int     `json:"n,omitempty"`    // number of rows / snapshots
+	From int     `json:"from,omitempty"` // day offset of the first appended snapshot, or of the bound
+	Half bool    `json:"half,omitempty"` // bound falls between two days (half a day later)
+	Seed int64   `json:"seed,omitempty"` // value seed
+	Vals []int64 `json:"vals,omitempty"`
 }
 
 // FaultSpec is one injected fault.
